@@ -289,7 +289,7 @@ theorem xsubsOf_fits (lay : RevLay) (cut : Nat) (es : List XE)
       simp only [beq_iff_eq] at hc
       have : a.f3 = 0 := by omega
       rw [this]
-      exact Nat.pos_pow (by decide)
+      exact Nat.pow_pos (by decide)
     · exact lt_pow_width _ _ _ hle3 hm3
 
 end Parsley.LoaderE2E
